@@ -187,6 +187,136 @@ def eraseP : List (Name × Expr) → List (Name × Expr)
   | (k, e) :: ps => (k, eraseE e) :: eraseP ps
 end
 
+/-! ## the dangling else as a well-formedness predicate on statement trees -/
+
+mutual
+/-- the statement ends in an `if` without `else`: an `else` token right after it would belong to that `if` -/
+def openIf : Stmt → Bool
+  | .ifS _ _ none => true
+  | .ifS _ _ (some el) => openIf el
+  | .whileS _ b => openIf b
+  | .forS _ _ _ b => openIf b
+  | _ => false
+end
+
+mutual
+/-- everywhere in the tree, the then-branch of an `if … else` is closed (so the `else` could not have
+    belonged to an inner `if`) -/
+def elseOk : Stmt → Bool
+  | .ifS _ th el => elseOk th && elseOkElse th el
+  | .whileS _ b => elseOk b
+  | .forS _ _ _ b => elseOk b
+  | .block ss => elseOkAll ss
+  | .funS _ _ body => elseOkAll body
+  | _ => true
+def elseOkAll : List Stmt → Bool
+  | [] => true
+  | s :: ss => elseOk s && elseOkAll ss
+def elseOkElse (th : Stmt) : Option Stmt → Bool
+  | none => true
+  | some el => !openIf th && elseOk el
+end
+
+/-- the type of the first token of the rendering of a tree -/
+def headTT : Expr → TT
+  | .literal v _ => (rLit v).tt
+  | .ident _ _ => .IDENTIFIER
+  | .grouping _ _ => .LEFT_PAREN
+  | .unary op _ _ => op
+  | .binary l _ _ _ => headTT l
+  | .logical l _ _ => headTT l
+  | .call c _ _ => headTT c
+  | .arrayLit _ => .LEFT_BRACKET
+  | .objectLit _ _ => .LEFT_BRACE
+  | .arrayAccess a _ _ => headTT a
+  | .propAccess o _ _ => headTT o
+  | .assign _ _ _ _ => .IDENTIFIER
+  | .arrayAssign a _ _ _ => headTT a
+  | .propAssign o _ _ _ => headTT o
+
+
+/-! ## statements: rendering as tokens, forgetting lines, well-formedness
+
+`wfS s` collects what the statement grammar demands of a tree beyond the shape of the type: every
+expression fits the ladder; a `ধরি` with one name is a `var`, with several a `varList`; declared
+variable and function names are not reserved; at most 255 parameters; the arms of `if` and the
+bodies of loops are statements, not declarations; the then-branch of an `if … else` is closed; an
+expression statement does not begin with `{` (that would be a block); the initializer of a `ফর`
+is a `ধরি` or an expression statement. -/
+
+def toksS (s : Stmt) : List Token := (rStmt s).map tk
+def toksSs (ss : List Stmt) : List Token := (rStmts ss).map tk
+
+def eraseOE : Option Expr → Option Expr
+  | none => none
+  | some e => some (eraseE e)
+
+def eraseD (d : VarDecl) : VarDecl := ⟨d.name, 0, eraseOE d.init⟩
+
+mutual
+def eraseS : Stmt → Stmt
+  | .expr e => .expr (eraseE e)
+  | .print e => .print (eraseE e)
+  | .var d => .var (eraseD d)
+  | .varList ds => .varList (ds.map eraseD)
+  | .block ss => .block (eraseSs ss)
+  | .ifS c t e => .ifS (eraseE c) (eraseS t) (eraseOS e)
+  | .whileS c b => .whileS (eraseE c) (eraseS b)
+  | .forS init c inc b => .forS (eraseOS init) (eraseOE c) (eraseOE inc) (eraseS b)
+  | .breakS _ => .breakS 0
+  | .continueS _ => .continueS 0
+  | .returnS _ v => .returnS 0 (eraseOE v)
+  | .funS n ps body => .funS n ps (eraseSs body)
+def eraseSs : List Stmt → List Stmt
+  | [] => []
+  | s :: ss => eraseS s :: eraseSs ss
+def eraseOS : Option Stmt → Option Stmt
+  | none => none
+  | some s => some (eraseS s)
+end
+
+def wfOE : Option Expr → Bool
+  | none => true
+  | some e => fits 0 e
+
+def wfDecl (d : VarDecl) : Bool := !Parser.isReserved d.name && wfOE d.init
+
+/-- what `statement` (as opposed to `declaration`) can return -/
+def isPlain : Stmt → Bool
+  | .var _ => false
+  | .varList _ => false
+  | .funS _ _ _ => false
+  | _ => true
+
+def wfInit : Option Stmt → Bool
+  | none => true
+  | some (.expr e) => fits 0 e
+  | some (.var d) => wfDecl d
+  | some (.varList ds) => decide (2 ≤ ds.length) && ds.all wfDecl
+  | some _ => false
+
+mutual
+def wfS : Stmt → Bool
+  | .expr e => fits 0 e && headTT e != .LEFT_BRACE
+  | .print e => fits 0 e
+  | .var d => wfDecl d
+  | .varList ds => decide (2 ≤ ds.length) && ds.all wfDecl
+  | .block ss => wfSs ss
+  | .ifS c t e => fits 0 c && isPlain t && wfS t && wfElse t e
+  | .whileS c b => fits 0 c && isPlain b && wfS b
+  | .forS init c inc b => wfInit init && wfOE c && wfOE inc && isPlain b && wfS b
+  | .breakS _ => true
+  | .continueS _ => true
+  | .returnS _ v => wfOE v
+  | .funS n ps body => !Parser.isReserved n && decide (ps.length ≤ Expect.maxParams) && wfSs body
+def wfSs : List Stmt → Bool
+  | [] => true
+  | s :: ss => wfS s && wfSs ss
+def wfElse (t : Stmt) : Option Stmt → Bool
+  | none => true
+  | some el => !openIf t && isPlain el && wfS el
+end
+
 /-! ## explicit parentheses
 
 `paren e` writes every operand of every operator, every suffix target and every assignment target
@@ -270,36 +400,6 @@ def stripL : List Expr → List Expr
 def stripP : List (Name × Expr) → List (Name × Expr)
   | [] => []
   | (k, e) :: ps => (k, strip e) :: stripP ps
-end
-
-/-! ## the dangling else as a well-formedness predicate on statement trees -/
-
-mutual
-/-- the statement ends in an `if` without `else`: an `else` token right after it would belong to that `if` -/
-def openIf : Stmt → Bool
-  | .ifS _ _ none => true
-  | .ifS _ _ (some el) => openIf el
-  | .whileS _ b => openIf b
-  | .forS _ _ _ b => openIf b
-  | _ => false
-end
-
-mutual
-/-- everywhere in the tree, the then-branch of an `if … else` is closed (so the `else` could not have
-    belonged to an inner `if`) -/
-def elseOk : Stmt → Bool
-  | .ifS _ th el => elseOk th && elseOkElse th el
-  | .whileS _ b => elseOk b
-  | .forS _ _ _ b => elseOk b
-  | .block ss => elseOkAll ss
-  | .funS _ _ body => elseOkAll body
-  | _ => true
-def elseOkAll : List Stmt → Bool
-  | [] => true
-  | s :: ss => elseOk s && elseOkAll ss
-def elseOkElse (th : Stmt) : Option Stmt → Bool
-  | none => true
-  | some el => !openIf th && elseOk el
 end
 
 /-- literal tokens carry a literal of their kind (true of every token the lexer produces) -/
